@@ -29,7 +29,7 @@ from . import common as C
 
 PROP = "C18"
 MODEL = "Fake"
-SHARD = 8
+SHARD = 12
 CASE_TIMEOUT = 90
 RESERVED = ("example.com", "example.org", "example.net")
 RULE = ("cases: per Faker locale (quick: en_US, default, ja_JP, ko_KR + 10 sampled; thorough: all of "
@@ -311,7 +311,8 @@ class _StubF:
 
         def m(*a, **k):
             self._log.append(name)
-            return self._vals[name]
+            v = self._vals.get(name)
+            return v if v is not None else "F:" + name
         return m
 
 
@@ -361,7 +362,6 @@ FIRST_SPELL = ["first_name", "FirstName", "firstname", "FIRST_NAME", "First_Name
 LAST_SPELL = ["last_name", "LastName", "lastname", "LAST_NAME", "Last_Name", "lASTnAME", "Lastname"]
 EMAIL_SPELL = ["email", "Email", "EMAIL", "eMail", "e_mail", "E_Mail", "EMAIL_", "em_ail"]
 USER_SPELL = ["username", "user_name", "UserName", "Username", "USER_NAME", "User_Name", "uSERnAME", "user_Name"]
-IDENT_OK = re.compile(r"^[A-Za-z][A-Za-z0-9_]*$")
 
 NAME_POOL = [
     "John", "Smith", "Mary", "de la Cruz", "O'Brien", "Anne-Marie", "J.R.", "St. John", "A", "z", "9", "",
@@ -475,6 +475,17 @@ def _gen_row(rng, genuine=False):
     return {"fields": fields, "inject": inject, "draws": [tpl, yoff, rng.randrange(60), rng.randrange(71)]}
 
 
+def _probe_rows(rng):
+    """two rows that differ only in the uuid4 Faker draws: the usernames must differ"""
+    first, last = rng.choice([("Ann", "Lee"), ("Zoë", "Müller"), ("O'Neil", "de la Cruz"), ("A", "B"),
+                              ("Christopher", "Featherstonehaugh")])
+    host = rng.choice(["web-01.smith.com", "db-77.mueller-schmidt.info", "lt-5.x.org"])
+    form = rng.choice(["block", "jinja", "nomatch"])
+    row = {"fields": [["FirstName", "block"], ["LastName", "block"], [rng.choice(USER_SPELL[:7]), form]],
+           "inject": {"first_name": [first, first], "last_name": [last, last], "hostname": [host]}, "draws": []}
+    return [row, dict(row)]
+
+
 def _gen_bulk_row(rng, i):
     layouts = [[["FirstName", "block"], ["LastName", "block"], ["Email", "block"], ["Username", "block"]],
                [["first_name", "block"], ["last_name", "block"], ["email", "jinja"], ["user_name", "jinja"]],
@@ -514,10 +525,11 @@ def _gen_user(rng):
 def _gen_email(rng):
     lv = {}
     shape = rng.choice(["both", "both", "both", "first", "last", "none", "mixed"])
+    plain = NAME_POOL[:9] + ["Xy", "McDonald", "van der Berg", "D'Angelo", "Jose", "Q_R"]
     if shape in ("both", "first", "mixed"):
-        lv["firstname"] = rng.choice(NAME_POOL)
+        lv["firstname"] = rng.choice(plain if rng.random() < .6 else NAME_POOL)
     if shape in ("both", "last", "mixed"):
-        lv["lastname"] = rng.choice(NAME_POOL)
+        lv["lastname"] = rng.choice(plain if rng.random() < .6 else NAME_POOL)
     if shape == "mixed":
         lv["username"] = "u@h"
     return {"kind": "email", "matching": rng.random() < .85, "lv": lv,
@@ -550,7 +562,7 @@ def generate(rng, tier):
         n_mixed, n_bulk, n_names = 3, 48, 25
     else:
         chosen = [None] + locs
-        n_mixed, n_bulk, n_names = 8, 200, 400
+        n_mixed, n_bulk, n_names = 6, 200, 400
     cases = []
     for loc in chosen:
         cases.append({"kind": "locale", "locale": loc, "part": "table", "queries": _queries(rng, loc, n_names), "rows": []})
@@ -558,10 +570,10 @@ def generate(rng, tier):
                       "rows": [_gen_bulk_row(rng, i) for i in range(n_bulk)]})
         for _ in range(n_mixed):
             cases.append({"kind": "locale", "locale": loc, "part": "mixed", "queries": [],
-                          "rows": [_gen_row(rng, genuine=rng.random() < .25) for _ in range(10)]})
-    for _ in range(250 if tier == "quick" else 4000):
+                          "rows": [_gen_row(rng, genuine=rng.random() < .25) for _ in range(10)] + _probe_rows(rng)})
+    for _ in range(250 if tier == "quick" else 2500):
         cases.append(_gen_user(rng))
-    for _ in range(200 if tier == "quick" else 3000):
+    for _ in range(200 if tier == "quick" else 2000):
         cases.append(_gen_email(rng))
     cases.extend(_clean_batches(rng, 6 if tier == "quick" else 60))
     return cases
@@ -688,8 +700,19 @@ def coq_case(case, obs):
             if t is not None:
                 rows.append(t)
         L = lambda xs: C.clist(cname(x) for x in xs)
-        sigs = C.clist(C.cpair(cname(n), cname(s)) for n, s in obs["sigs"])
-        return (f"CLocale {L(obs['fk_dir'])} {L(obs['ignore'])} {L(obs['sf_dir'])} {L(obs['ni'])} {sigs} "
+        fk_dir, ignore, sf_dir, ni, sg = obs["fk_dir"], obs["ignore"], obs["sf_dir"], obs["ni"], obs["sigs"]
+        if not case.get("queries"):
+            # rows only: a lookup of q can only hit keys made from names n with canon(n) = canon(q)
+            # (keys are lower(n) or canon(n), the probe is lower(q)), so the other names are left out
+            # of the term; order is preserved.  The table cases carry the complete lists.
+            want = {canon(q) for row in case.get("rows", []) for q, _ in row["fields"]}
+            fk_dir = [n for n in fk_dir if canon(n) in want]
+            sf_dir = [n for n in sf_dir if canon(n) in want]
+            ignore = [n for n in ignore if n in set(fk_dir)]
+            ni = [n for n in ni if n in set(sf_dir)]
+            sg = [[n, x] for n, x in sg if n in set(sf_dir) or (n.startswith("F:") and n[2:] in set(fk_dir))]
+        sigs = C.clist(C.cpair(cname(n), cname(x)) for n, x in sg)
+        return (f"CLocale {L(fk_dir)} {L(ignore)} {L(sf_dir)} {L(ni)} {sigs} "
                 f"{C.copt(hyp_ok if case.get('queries') else None, C.cbool)} {C.clist(qs)} {C.clist(clit(d) for d in doms)} "
                 f"{C.cbool(all(d in RESERVED for d in doms))} {C.cz(obs['this_year'])} {C.clist(rows)}")
     return None
@@ -774,6 +797,8 @@ def oracle(case, obs):
                 return "user: " + m
             if not v.endswith("@" + case["host"]):
                 return f"user: {v!r} does not end with the host name"
+            if len(v) < 80 and case["uuid"] not in v:
+                return f"user: {v!r} was not truncated but does not contain the uuid {case['uuid']!r}"
         return None
     if kind == "email":
         if "ok" not in obs:
@@ -817,7 +842,7 @@ def oracle(case, obs):
         if rel:
             return f"lookup: locale {case['locale']}: provider names collide after canonicalisation: {rel[:3]}"
     # rows
-    users = {}
+    users, repeat = {}, None
     for i, (row, ob) in enumerate(zip(case.get("rows", []), obs.get("rows", []))):
         if any(note and note.startswith("raised:") for _, _, note in ob.get("flog", [])):
             continue                      # Faker itself failed; no value was produced
@@ -853,10 +878,14 @@ def oracle(case, obs):
                     m = _check_user(v)
                     if m:
                         return f"rows: row {i} field {j} (fake: {row['fields'][j][0]}): username {m}"
-                if v in users:
-                    return (f"repeat: locale {case['locale']}: username {v!r} produced twice (rows {users[v]} and {i})")
+                uu = [x for m_, x, _ in ob.get("flog", []) if m_ == "uuid4" and x]
+                if isinstance(v, str) and len(v) < 80 and uu and not any(u in v for u in uu):
+                    return (f"rows: row {i} field {j}: username {v!r} was not truncated but contains none of the "
+                            f"uuid4 values {uu}")
+                if v in users and repeat is None:
+                    repeat = f"repeat: locale {case['locale']}: username {v!r} produced twice (rows {users[v]} and {i})"
                 users[v] = i
-    return None
+    return repeat
 
 
 def _long_names_eat_uuid(case, obs):
@@ -1030,7 +1059,7 @@ def directed_search(rng, disagreeing):
                     "rows": [_gen_bulk_row(rng, i) for i in range(120)]})
         for _ in range(6):
             out.append({"kind": "locale", "locale": loc, "part": "mixed", "queries": [],
-                        "rows": [_gen_row(rng) for _ in range(10)]})
+                        "rows": [_gen_row(rng) for _ in range(10)] + _probe_rows(rng)})
     out.extend(_gen_user(rng) for _ in range(1500))
     out.extend(_gen_email(rng) for _ in range(1500))
     out.extend(_clean_batches(rng, 20))
